@@ -42,6 +42,9 @@ def node_impl(n):
     if k == "failing0":
         from harness.lib import components as _c
         return {"processor": _c.VerifFailingNoMessageOperation}
+    if k == "raising":
+        from harness.lib import components as _c
+        return {"processor": _c.make_raising(n["exc"], n["arg"])}
     if k == "failmsg":
         from harness.lib import components as _c
         return {"processor": _c.make_failing_with(n["msg"])}
@@ -70,8 +73,8 @@ def node_coq(n):
         raise pg.Unsupported("one-shot iterator component (direct oracle only)")
     if k == "baddesc":
         raise pg.Unsupported("descriptor-valued parameter (direct oracle only)")
-    if k in ("failmsg", "note"):
-        raise pg.Unsupported("unusual-string component (direct oracle only)")
+    if k in ("failmsg", "note", "raising"):
+        raise pg.Unsupported("unusual-string / unusual-exception component (direct oracle only)")
     if k == "failing0":
         return "(mkNode lib_failing [] None)"     # the model's error carries the class, not the message
     if k == "interrupt":
@@ -93,7 +96,7 @@ def node_meta(n):
 
 
 def node_repr(n):
-    if n["k"] in ("interrupt", "datesweep", "streamsrc", "streamsum", "sumitems", "baddesc", "failing0", "failmsg", "note"):
+    if n["k"] in ("interrupt", "datesweep", "streamsrc", "streamsum", "sumitems", "baddesc", "failing0", "failmsg", "note", "raising"):
         c = node_impl(n)
         c = json.loads(json.dumps(c, default=lambda o: getattr(o, "__name__", None) or str(o)))
         return c
@@ -830,7 +833,65 @@ def unusual_string_cases(rng, n):
         else:
             nodes = base + [{"k": "failmsg", "msg": s}, {"k": "probe", "ckey": "k"}]
         out.append({"nodes": nodes, "data0": None, "ctx0": ctx0, "kind": "unusual-string:" + where, "direct_only": True})
+    # exceptions whose argument is not a JSON value
+    for exc, arg in (("KeyError", "bytes"), ("KeyError", "frozenset"), ("KeyError", "path"), ("ValueError", "bytes"), ("LookupError", "tuple"),
+                     ("RuntimeError", "object"))[: max(2, n // 3)]:
+        out.append({"nodes": [{"k": "src", "cfg": {"value": 2}}, {"k": "mul", "cfg": {"factor": 3}}, {"k": "raising", "exc": exc, "arg": arg},
+                              {"k": "probe", "ckey": "k"}], "data0": None, "ctx0": {}, "kind": "unusual-exception-argument:%s:%s" % (exc, arg), "direct_only": True})
     return out
+
+
+def transport_failure_problems(nodes, fail_at, detail, mode):
+    """A run whose transport fails on the publish after node `fail_at`: the node started, so it has a SER; one start, one
+    error end; handle closed; the caller gets the transport's exception.  -> list of problems"""
+    pg.setup_impl()
+    from semantiva.pipeline import Pipeline
+    from semantiva.trace.drivers.jsonl import JsonlTraceDriver
+    from harness.lib.components import failing_transport
+    own_dir = tempfile.mkdtemp(prefix="verif_tf_")
+    path = os.path.join(own_dir, "t.ser.jsonl") if mode == "file" else os.path.join(own_dir, "traces")
+    driver = JsonlTraceDriver(path, detail=detail)
+    probs = []
+    try:
+        pipe = Pipeline([node_impl(n) for n in nodes], trace=driver, transport=failing_transport(fail_at))
+        exc = None
+        with ExecLog() as log:
+            try:
+                pipe.process(make_payload(None, {}))
+            except BaseException as ex:  # noqa
+                exc = ex
+        started = len(log.entries)
+        open_handle = driver._file is not None
+        if open_handle:
+            try:
+                driver._file.close()
+            except Exception:  # noqa
+                pass
+            driver._file = None
+        recs = []
+        for ln in _disk(path, mode):
+            try:
+                recs.append(json.loads(ln))
+            except Exception:  # noqa
+                recs.append({"record_type": None})
+        types = [r.get("record_type") for r in recs]
+        sers = [r for r in recs if r.get("record_type") == "ser"]
+        if exc is None or type(exc).__name__ != "ConnectionError":
+            probs.append("exception-changed (caller got %s)" % (type(exc).__name__ if exc else "no exception"))
+        if types.count("pipeline_start") != 1 or types[:1] != ["pipeline_start"]:
+            probs.append("no-single-pipeline_start %s" % types)
+        if types.count("pipeline_end") != 1 or types[-1:] != ["pipeline_end"]:
+            probs.append("no-pipeline_end %s" % types)
+        if len(sers) != started:
+            probs.append("ser-count: %d node(s) started, %d SER(s)" % (started, len(sers)))
+        ends = [r for r in recs if r.get("record_type") == "pipeline_end"]
+        if ends and (ends[-1].get("summary") or {}).get("status") == "ok":
+            probs.append("end-status ok although the run raised")
+        if open_handle:
+            probs.append("handle-open")
+    finally:
+        shutil.rmtree(own_dir, ignore_errors=True)
+    return probs
 
 
 def launch_style_runs(nodes, data0, ctx0, detail, mode, n_runs=3):
